@@ -460,6 +460,25 @@ func init() {
 		return ex.callFunction(np.Func("AddrPortFrom"), []Value{ip, BV(16, 40000)}, nil, nil)
 	})
 	regStub("(*net.conn).Close", func(ex *Exec, fn *ssa.Function, args []Value) Value { return &IfaceV{} })
+	// name resolution from the harness table
+	suffixStubs["vfSetResolve"] = func(ex *Exec, fn *ssa.Function, args []Value) Value {
+		ex.ghost["resolve:"+ex.argString(args[0])] = args[1]
+		return nil
+	}
+	regStub("(*net.Resolver).LookupNetIP", func(ex *Exec, fn *ssa.Function, args []Value) Value {
+		host := ex.argString(args[3])
+		st := fn.Signature.Results().At(0).Type()
+		a4, ok := ex.ghost["resolve:"+host].(TupleV)
+		if !ok {
+			return TupleV{ex.zero(st), ex.cachedError("lookup " + host + ": no such host")}
+		}
+		ex.sched.point() // a lookup takes time: other goroutines may run
+		np := ex.prog.ImportedPackage("net/netip")
+		ip := ex.callFunction(np.Func("AddrFrom4"), []Value{copyValue(a4)}, nil, nil)
+		et := st.Underlying().(*types.Slice).Elem()
+		o := ex.newCells(types.NewArray(et, 1), TupleV{ip}, "ips")
+		return TupleV{&SliceV{Obj: o, Off: BV(64, 0), Len: BV(64, 1), Cap: BV(64, 1)}, &IfaceV{}}
+	})
 	suffixStubs["vfStorePath"] = func(ex *Exec, fn *ssa.Function, args []Value) Value {
 		return ex.stringValue("/vf/store.json")
 	}
